@@ -448,8 +448,26 @@ class WorkflowRecovery:
         Returns:
             True if stage dependencies are met
         """
-        from stabilize.models.stage import JoinType
+        from stabilize.models.stage import JoinType, SyntheticStageOwner
         from stabilize.models.status import CONTINUABLE_STATUSES
+
+        # A synthetic stage is started by its parent (before-stages when the
+        # parent is planned, after / on-failure stages when its core work is
+        # done), never on the strength of its own requisites alone: one that
+        # was declared with the workflow sits NOT_STARTED without requisites
+        # long before - or without ever - being reached.
+        if stage.parent_stage_id is not None:
+            parent = next((s for s in workflow.stages if s.id == stage.parent_stage_id), None)
+            if parent is None or parent.status != WorkflowStatus.RUNNING:
+                return False
+            if stage.synthetic_stage_owner == SyntheticStageOwner.STAGE_AFTER:
+                core = [t.status for t in parent.tasks] + [
+                    s.status
+                    for s in workflow.stages
+                    if s.parent_stage_id == parent.id and s.synthetic_stage_owner == SyntheticStageOwner.STAGE_BEFORE
+                ]
+                if not all(status in CONTINUABLE_STATUSES for status in core):
+                    return False
 
         # No dependencies - can always start
         if not stage.requisite_stage_ref_ids:
